@@ -42,4 +42,5 @@ Definition run_generic (code : Z) (ws : list Z) : list Z :=
   else if code =? 6 then run_smh ws
   else if code =? 7 then run_smh2 ws
   else if code =? 8 then run_dens ws
+  else if code =? 9 then run_ord ws
   else [-2].
